@@ -21,9 +21,13 @@ package dns
 //@ func Server.handleRequest
 //@   requires wkr != nil && r != nil && nonnil(w)
 //@   callsite Server.reply only-myco-address-queries [C19]: hassuffix(queryName, config.DefaultTLDBetweenDots) && (q.Qtype == dns.TypeA || q.Qtype == dns.TypeAAAA || q.Qtype == dns.TypeSVCB || q.Qtype == dns.TypeHTTPS || q.Qtype == dns.TypeANY) && (q.Qclass == dns.ClassINET || q.Qclass == dns.ClassANY)
-//@   callsite Server.reply only-with-a-source [C19]: arg4 == SourceInternal || arg4 == SourceResolveConfig || arg4 == SourceFriend || arg4 == SourceMapping
+//@   callsite Server.reply only-with-a-source [C19]: arg5 == SourceInternal || arg5 == SourceResolveConfig || arg5 == SourceFriend || arg5 == SourceMapping
 
 //@ func Server.replyMsg
 //@   requires wkr != nil && nonnil(w) && reply != nil
 //@ func Server.replyNotFound
 //@   requires wkr != nil && nonnil(w) && r != nil
+
+// The looked-up name is the lower-cased query name without the trailing dot.
+//@ func Server.handleRequest
+//@   callsite Server.Lookup normalised-name [C19]: arg1 == (hassuffix(uf("tolower", string, q.Name), ".") ? cutsuffix(uf("tolower", string, q.Name), ".") : uf("tolower", string, q.Name))
